@@ -18,7 +18,7 @@ import (
 // C04 — tampered, mis-addressed or foreign-database entries are never merged.
 
 var c04Fields = []string{"payload", "clock.time", "clock.id", "next.add", "next.drop", "refs.add", "key.other", "key.garbage", "sig.flip", "sig.empty",
-	"identity.id", "identity.publicKey", "identity.sig.id", "identity.sig.publicKey", "identity.type", "logid", "logid.slash", "logid.noprefix", "logid.dot", "logid.case", "v", "hash", "sibling"}
+	"identity.id", "identity.publicKey", "identity.sig.id", "identity.sig.publicKey", "identity.type", "logid", "logid.slash", "logid.noprefix", "logid.dot", "logid.case", "v", "hash", "hash.raw", "sibling"}
 
 type CaseC04 struct {
 	Type    string     `json:"type"`
@@ -199,11 +199,12 @@ func execC04(c CaseC04) *Outcome {
 		m.LogID = strings.ToUpper(cl.Addr)
 	case "v":
 		m.V = 1
-	case "hash", "sibling":
-		// content unchanged; "hash": the claimed address is someone else's
+	case "hash", "hash.raw", "sibling":
+		// content unchanged; "hash": the claimed address is someone else's; "hash.raw": the claimed address has the
+		// digest of the content but another codec (raw instead of dag-cbor): a different address all the same
 	}
 	form := c.Form
-	if (c.Route == "loadmore" || c.Route == "snapqueue") && form == "A" && c.Field != "hash" {
+	if (c.Route == "loadmore" || c.Route == "snapqueue") && form == "A" && c.Field != "hash" && c.Field != "hash.raw" {
 		// these routes carry addresses only: an entry under a claimed address it does not hash to cannot travel
 		// by them (the address is fetched, which yields the untouched original)
 		form = "B"
@@ -213,6 +214,12 @@ func execC04(c CaseC04) *Outcome {
 	case c.Field == "hash":
 		form = "A"
 		claimed = bogus
+	case c.Field == "hash.raw":
+		// as a head (A) or, by that address, as the ancestor / reference of a valid head (C, D, E)
+		if form == "B" {
+			form = "A"
+		}
+		claimed = cid.NewCidV1(cid.Raw, base.Hash.Hash())
 	case form == "A":
 		// claimed hash kept
 	default:
